@@ -9,12 +9,7 @@ ID=$1; TGT=$2; RUNS=${3:-2000000}
 V=/verif
 SEED=$(( ${VERIF_SEED:-1} % 2147483647 )); [ "$SEED" = 0 ] && SEED=1
 export CARGO_NET_OFFLINE=true
-cd $V/fuzz || exit 2
-LOG=$V/target/fuzz-build.log
-mkdir -p $V/target
-( flock 9
-  RUSTFLAGS="--cfg pkolaczk_fclones_verif" cargo +nightly fuzz build --fuzz-dir $V/fuzz -O "$TGT" >$LOG 2>&1
-) 9>$V/target/.fuzz.lock || { echo "BUILD-FAILED: fuzz target $TGT (see $LOG)"; tail -20 $LOG; exit 2; }
+$V/fuzz/build.sh || exit 2
 BIN=$V/target/fuzz/x86_64-unknown-linux-gnu/release/$TGT
 [ -x "$BIN" ] || { echo "BUILD-FAILED: $BIN missing"; exit 2; }
 WORK=$(mktemp -d /var/tmp/fcvfuzz.XXXXXX)
@@ -38,14 +33,21 @@ done
 # 2. campaign
 cp $V/fuzz/seeds/$TGT/* $WORK/corpus/ 2>/dev/null
 T0=$(date +%s)
-"$BIN" -runs=$RUNS -seed=$SEED -max_len=512 -len_control=0 -timeout=20 -rss_limit_mb=4096 -print_final_stats=1 \
-  -artifact_prefix=$WORK/art/ $WORK/corpus >$WORK/fuzz.log 2>&1
-RC=$?
+JOBS=${FUZZ_JOBS:-8}
+PER=$(( (RUNS + JOBS - 1) / JOBS ))
+RC=0
+PIDS=""
+for j in $(seq 1 $JOBS); do
+  "$BIN" -runs=$PER -seed=$((SEED + j)) -max_len=512 -len_control=0 -timeout=20 -rss_limit_mb=4096 -print_final_stats=1 -reload=1 \
+    -artifact_prefix=$WORK/art/ $WORK/corpus >$WORK/fuzz-$j.log 2>&1 &
+  PIDS="$PIDS $!"
+done
+for p in $PIDS; do wait $p || RC=$?; done
+cat $WORK/fuzz-*.log > $WORK/fuzz.log 2>/dev/null
 T1=$(date +%s)
-STAT() { grep -E "^stat::$1:" $WORK/fuzz.log | awk '{print $2}' | tail -1; }
-EXECS=$(STAT number_of_executed_units); EXECS=${EXECS:-0}
-COV=$(grep -oE "cov: [0-9]+" $WORK/fuzz.log | tail -1 | awk '{print $2}'); COV=${COV:-0}
-FT=$(grep -oE "ft: [0-9]+" $WORK/fuzz.log | tail -1 | awk '{print $2}'); FT=${FT:-0}
+EXECS=$(grep -h -E "^stat::number_of_executed_units:" $WORK/fuzz-*.log 2>/dev/null | awk '{s+=$2} END {print s+0}')
+COV=$(grep -h -oE "cov: [0-9]+" $WORK/fuzz-*.log 2>/dev/null | awk '{if ($2>m) m=$2} END {print m+0}')
+FT=$(grep -h -oE "ft: [0-9]+" $WORK/fuzz-*.log 2>/dev/null | awk '{if ($2>m) m=$2} END {print m+0}')
 CORP=$(ls $WORK/corpus | wc -l)
 SAMPLES=$(ls -S $WORK/corpus | head -3 | while read f; do xxd -p -c 64 $WORK/corpus/$f | head -1; done | python3 -c "import sys,json;print(json.dumps([l.strip() for l in sys.stdin]))")
 python3 - "$V/evidence/$ID.json" "$TGT" "$RUNS" "$SEED" "$EXECS" "$COV" "$FT" "$CORP" "$REG" "$((T1-T0))" "$RC" "$SAMPLES" <<'EOF'
@@ -54,7 +56,7 @@ p,tgt,runs,seed,execs,cov,ft,corp,reg,secs,rc,samples=sys.argv[1:]
 try: d=json.load(open(p))
 except Exception: sys.exit(0)
 c=d.setdefault("coverage",{})
-c["fuzz"]={"engine":"libFuzzer via cargo-fuzz (ASan, -O, debug assertions on)","target":tgt,"runs_requested":int(runs),"seed":int(seed),
+c["fuzz"]={"engine":"libFuzzer via cargo-fuzz (ASan, -O, debug assertions on), parallel jobs sharing one corpus directory","target":tgt,"runs_requested":int(runs),"seed":int(seed),
  "executed_units":int(execs),"edge_coverage":int(cov),"features":int(ft),"corpus_files_at_end":int(corp),
  "regression_inputs_replayed":int(reg),"wall_s":int(secs),"exit_code":int(rc),"corpus_samples_hex":json.loads(samples),
  "note":"inputs are decoded into structured arguments inside the target; the oracle (round trip / reference matcher) is an assertion in the target; corpus_files_at_end counts inputs that reached new coverage"}
